@@ -125,7 +125,10 @@ class Pools:
         hi = any(o["regType"] == "r8hi" for o in form["ops"])
         self.pools = {"gp": [1, 2, 3] if hi else [8, 9, 10, 11, 12, 13], "vec": [1, 2, 3, 4, 5, 6], "k": [2, 4, 6, 5], "mm": [1, 2, 3, 4],
                       "st": [1, 2, 3], "bnd": [1, 2, 3], "sreg": [1, 3, 4], "creg": [2, 3], "dreg": [2, 3], "tmm": [1, 2, 3, 4]}
-        if rng is not None:
+        if rng == "high":
+            # EVEX-only vector registers (xmm16..31): the assembler must pick the EVEX form, query_features must notice
+            self.pools["vec"] = [17, 18, 19, 20, 21, 22]
+        elif rng is not None:
             # seeded register assignment: any GP register but rsp/rbp (base) and the fixed a/c/d/b, any vector register the
             # encoding admits (EVEX: 0..31, which exercises the high-register branch of query_features), any mask but k0
             gp = [1, 2, 3] if hi else [6, 7, 8, 9, 10, 11, 12, 13, 14, 15]
@@ -274,6 +277,9 @@ def x86_queries(db, rng=None, limit=None):
         variants = [(base_choice, False)]
         if rng is not None:
             variants.append((base_choice, "rand"))
+        if f["prefix"] == "EVEX" and any(g["prefix"] == "VEX" for g in by_name[f["name"]]) and \
+                any(o["regType"] in ("xmm", "ymm") for o in ops):
+            variants.append((base_choice, "high"))
         nreg_free = {}
         for o, c in zip(ops, base_choice):
             if c == "reg" and not o["fixed"] and not o["regIndexRel"]:
@@ -297,7 +303,9 @@ def x86_queries(db, rng=None, limit=None):
                 settings.append(("E", "-"))
             for opts, extra in settings:
                 for with_impl in (True, False):
-                    if same == "rand":
+                    if same == "high":
+                        inst = instantiate(f, choice, False, with_impl, "high")
+                    elif same == "rand":
                         st = rng.getstate()
                         inst = instantiate(f, choice, False, with_impl, rng)
                         if with_impl:
@@ -318,7 +326,7 @@ def x86_queries(db, rng=None, limit=None):
                     name = f["name"]
                     line = "x x64 %s %s %s %s" % (name, opts, extra, " ".join(toks))
                     qs.append({"line": line.strip(), "form": fi, "dbops": dbops, "implicit": with_impl,
-                               "variant": "%s%s%s" % ("seeded" if same == "rand" else "same" if same else "distinct", "/mem" if "mem" in choice else "/reg",
+                               "variant": "%s%s%s" % ("high" if same == "high" else "seeded" if same == "rand" else "same" if same else "distinct", "/mem" if "mem" in choice else "/reg",
                                                       ("/" + opts + extra) if (opts, extra) != ("-", "-") else ""),
                                "opts": opts, "extra": extra})
     return qs
